@@ -61,6 +61,34 @@ CHECKS = {
             "N=8: all 255 position subsets x 4 non-finite kinds x channel choice x 8 containers (+5 one-channel containers): result equals the zero-filled record's and the caller's bytes are unchanged; containers x 5 dtypes x shapes give the float64 result; every x in {-2,0,1}^6(+2) x 10 partners x scales 1e-150/1/1e150 x 4 orders x auto/cross x full/single-bin: all densities, coherences, transfer functions finite, error bars finite where coh>0.",
             "magnitude alphabet keeps the densities representable; cf_db=-inf at cf=0 is by definition",
             "bounded exhaustive input enumeration with differential and finiteness oracles", "DESIGN.md §4 C13"),
+    "C14": (E3,
+            "Schedules: all six prange kernels and all six CUDA kernels are lifted from the working tree's source (one generator per loop iteration / CUDA thread, scheduling points at every access to a shared-mutable array) and every interleaving is enumerated: K=2 and K=3 without a preemption bound (34650 schedules per kernel at K=3), repeated starts with bound 2; one outcome, bitwise equal to the in-order run; every output slot written once. Conformance: compiled kernels under threads 1..16 x 7 chunk sizes x 7 segment counts x repetitions are bitwise equal to one thread and equal to the lifted in-order run. Histories: BFS over plan/compute/compute_single_bin sequences on one analyzer (depth 4 merged, depth 3 unmerged) and over every order of first attribute access on a result (depth 2; 3 thorough).",
+            "each iteration its own thread (superset of every worker/chunk assignment); native thread timing not controlled, bound to the model by the conformance sweep; CUDA device scheduling not covered",
+            "stateless schedule exploration (preemption-bounded DFS over the lifted kernel source) + explicit-state BFS over operation histories", "DESIGN.md §3.3, §4 C14"),
+    "C15": (E1,
+            "q=1..3 (4 thorough) inputs on N=600 records: every coefficient vector over {-1,2,.5}^q as an exact static combination and with an independent record added, every permutation, every invertible 2x2 mixing matrix over {-1,0,1,2} (fixed set of 12 for q>=3), numeric and analytic solvers, q=1 delays {0,1,3} x gain sign: range, zero residual, invariances, solver agreement, SISO = sqrt(Gyy(1-coh)) on every bin with K>q.",
+            "power-level tolerance 1e-7*S00 (observed 5e-15); records are the identifiable set",
+            "bounded exhaustive configuration enumeration with differential and algebraic oracles", "DESIGN.md §4 C15"),
+    "C16": (E1,
+            "lagrange_taps against exact rational Lagrange weights for all 56 odd orders x 18 fractional parts; timeshift for orders {1,3,5,7,31,111} (all 56 thorough) x N in 2..12,p+5,3p+7 x every integer shift in [-N-3,N+3] x fractional shifts x records incl. polynomials of every degree <= min(p,7): displacement with held ends, identity, interior-sample value = exact polynomial interpolation, polynomial reproduction, constant-vs-vector path agreement; df_timeshift option product.",
+            "interior = whole stencil inside the record; tolerance scaled by the stencil's Lebesgue constant",
+            "bounded exhaustive configuration/input enumeration against an exact-arithmetic reference", "DESIGN.md §4 C16"),
+    "C17": (E2,
+            "BFS over all histories of get_series(n), n in {0,1,2,3,5}, total <= 12 (20 thorough), on 13 generator configurations x 3 seeds, objects rebuilt from the history, states merged by a hash of the complete object state; plus the same search without merging for total <= 6 (9). Every block equals the corresponding slice of one long request from a twin (exact), and the state after t samples is chunking independent. get_sample runs across the 4096 buffer boundary; the filter cascade against scipy's direct-form sections on every input over {-2,0,1}^n (n<=6) and every split point.",
+            "seeds/parameters outside the stated set not covered; equal state hash => equal futures (hash covers vars() recursively)",
+            "explicit-state BFS over operation histories on the real objects", "DESIGN.md §3.2, §4 C17"),
+    "C18": (E1,
+            "alpha in {0.01..2.0} (10 values) x 12 (fs,fmin,fmax) triples: analytic response of the object's own filter coefficients within 1 dB of f^-alpha on 400 points a factor 3 inside the corners; white rms^2 = psd*fs; fftnoise for every magnitude vector over {0,1,2.5} for N=2..14 (16 thorough) x 3 phase patterns x 3 seeds; band_limited_noise for samples 2..40 x every band-edge pair on and between grid points.",
+            "corner regions (within a factor 3 of the effective corners) excluded as the property says 'between' the corners",
+            "bounded exhaustive configuration/input enumeration with analytic oracles", "DESIGN.md §4 C18"),
+    "C19": (E1,
+            "polynomial_detrend on every record over {-2,0,1}^n (n<=7; 8 thorough) and identifiable records of 30/200 samples x orders 0..5: orthogonality to all monomials of degree<=p, polynomials to zero, idempotence; df_detrend option product; integral_rms on uniform/log/irregular grids of 2..6 (8) points x every ASD over {0,1,2.5}^n x every band over grid points, midpoints, +-inf: trapezoid value, additivity at grid-point splits, monotonicity under nesting; get_rms incl. reversed bands.",
+            "the 'few percent of the time-domain RMS for broadband data' clause is statistical and not claimed (DESIGN.md §6)",
+            "bounded exhaustive input enumeration against a reference model", "DESIGN.md §4 C19"),
+    "C20": (E2,
+            "E1: 8 results from real analyses (auto/cross x ragged, equal-K, single-bin, Lmin=N) + constructed results: every public attribute against the documented function of the raw fields or None; get_measurement at grid, fractional, outside points, scalar/array, for every array-valued name; to_dataframe columns/index/values. E2: BFS over histories (depth 2; 3 thorough) over the full alphabet {read any attribute, 3 interpolated reads, to_dataframe, copy, deepcopy, pickle protocols 2-5} on objects rebuilt from the history: values returned and every attribute read afterwards equal a fresh result's (bitwise), cached entries unchanged, raw data unchanged.",
+            "fresh value = first read on a newly constructed result with the same raw fields",
+            "explicit-state BFS over operation histories + bounded exhaustive relation table", "DESIGN.md §3.2, §4 C20"),
 }
 
 NOT_YET = "check under construction in this round; not claimed yet"
